@@ -592,7 +592,7 @@ V("c10d-tonumber-scale-dropped", A, "C10", "C10.d",
     else:""", """            if arg_precision:
                 _scale = None
     else:"""))
-V("c10d-dateadd-week-not-date", A, "C10", "C10.d", ('transforms', 'unit.upper() not in {"DAY", "WEEK", "MONTH", "YEAR"}', 'unit.upper() not in {"DAY", "MONTH", "YEAR"}'))
+V("c10d-dateadd-week-not-date", A, "C10", "C10.d", ('transforms', 'unit.upper() not in {"DAY", "WEEK", "MONTH", "QUARTER", "YEAR"}', 'unit.upper() not in {"DAY", "MONTH", "QUARTER", "YEAR"}'))
 V("c10d-datediff-operands-swapped", A, "C10", "C10.d",
   ("transforms", """    new_datediff.set("this", op1)
     new_datediff.set("expression", op2)""", """    new_datediff.set("this", op2)
